@@ -30,6 +30,7 @@ import (
 	"strings"
 	"sync"
 	"sync/atomic"
+	"testing"
 	"time"
 
 	"github.com/klauspost/compress/zstd"
@@ -87,7 +88,9 @@ func (h *authHoney) Close()      { h.srv.Close() }
 func (h *authHoney) handleAuth(w http.ResponseWriter, r *http.Request) {
 	key := r.Header.Get("X-Honeycomb-Team")
 	h.mu.Lock()
-	h.authCalls = append(h.authCalls, key)
+	if len(h.authCalls) < 5000 {
+		h.authCalls = append(h.authCalls, key)
+	}
 	id := h.keyIDs[key]
 	h.mu.Unlock()
 	w.Header().Set("Content-Type", "application/json")
@@ -132,6 +135,9 @@ func (h *authHoney) handleBatch(w http.ResponseWriter, r *http.Request) {
 		h.decodeErrs = append(h.decodeErrs, derr)
 	}
 	h.batches = append(h.batches, b)
+	if len(h.batches) > 5000 { // long-lived SUTs (C28 worker): keep memory bounded
+		h.batches = append(h.batches[:0:0], h.batches[2500:]...)
+	}
 	h.mu.Unlock()
 	resp := make([]map[string]int, len(evs))
 	for i := range resp {
@@ -169,11 +175,11 @@ type authLogEntry struct {
 	fields map[string]any
 }
 
-func (l *authLogger) Debug() logger.Entry          { return authNopEntry{} }
-func (l *authLogger) Info() logger.Entry           { return authNopEntry{} }
-func (l *authLogger) Warn() logger.Entry           { return &authLogEntry{l: l, level: "warn"} }
-func (l *authLogger) Error() logger.Entry          { return &authLogEntry{l: l, level: "error"} }
-func (l *authLogger) SetLevel(level string) error  { return nil }
+func (l *authLogger) Debug() logger.Entry         { return authNopEntry{} }
+func (l *authLogger) Info() logger.Entry          { return authNopEntry{} }
+func (l *authLogger) Warn() logger.Entry          { return &authLogEntry{l: l, level: "warn"} }
+func (l *authLogger) Error() logger.Entry         { return &authLogEntry{l: l, level: "error"} }
+func (l *authLogger) SetLevel(level string) error { return nil }
 func (l *authLogger) snapshot() []authLogLine {
 	l.mu.Lock()
 	defer l.mu.Unlock()
@@ -182,10 +188,10 @@ func (l *authLogger) snapshot() []authLogLine {
 
 type authNopEntry struct{}
 
-func (authNopEntry) WithField(string, interface{}) logger.Entry      { return authNopEntry{} }
-func (authNopEntry) WithString(string, string) logger.Entry          { return authNopEntry{} }
-func (authNopEntry) WithFields(map[string]interface{}) logger.Entry  { return authNopEntry{} }
-func (authNopEntry) Logf(string, ...interface{})                     {}
+func (authNopEntry) WithField(string, interface{}) logger.Entry     { return authNopEntry{} }
+func (authNopEntry) WithString(string, string) logger.Entry         { return authNopEntry{} }
+func (authNopEntry) WithFields(map[string]interface{}) logger.Entry { return authNopEntry{} }
+func (authNopEntry) Logf(string, ...interface{})                    {}
 
 func (e *authLogEntry) WithField(k string, v interface{}) logger.Entry {
 	if e.fields == nil {
@@ -358,6 +364,16 @@ func authDropProcessPorts() {
 	authProcPorts = nil
 }
 
+func TestMain(m *testing.M) {
+	code := m.Run()
+	authProcPortsMu.Lock()
+	if authProcPorts != nil {
+		authProcPorts.Release()
+	}
+	authProcPortsMu.Unlock()
+	os.Exit(code)
+}
+
 // ---------------------------------------------------------------- SUT
 
 type authSUTOpts struct {
@@ -369,11 +385,15 @@ type authSUTOpts struct {
 	KeyIDs map[string]string
 	// OnError is called for every error-level log line.
 	OnError func(authLogLine)
+	// Peer also starts a second Router of type peer on PeerListenAddr.
+	Peer bool
 }
 
 type authSUT struct {
 	Cfg       config.Config
 	Router    *route.Router
+	PeerRtr   *route.Router
+	PeerAddr  string
 	Upstream  *transmit.DirectTransmission
 	Peer      *authPeerTransmission
 	Collector *authCollector
@@ -541,6 +561,39 @@ func authStartSUTOnce(o authSUTOpts) (*authSUT, error) {
 		}
 		time.Sleep(2 * time.Millisecond)
 	}
+	if o.Peer {
+		s.PeerAddr = "127.0.0.1:" + strconv.Itoa(blk.base+1)
+		if !authPortFree(blk.base + 1) {
+			s.stop()
+			return nil, fmt.Errorf("port %d busy", blk.base+1)
+		}
+		s.PeerRtr = &route.Router{
+			Config: cfg, Logger: s.Log, Health: authHealth{}, HTTPTransport: s.transport,
+			UpstreamTransmission: s.Upstream, PeerTransmission: s.Peer,
+			Sharder: &sharder.SingleServerSharder{Logger: s.Log}, Collector: s.Collector,
+			Metrics: met, Tracer: noop.NewTracerProvider().Tracer("verif"),
+		}
+		s.PeerRtr.SetVersion(s.Nonce + "-peer")
+		s.PeerRtr.SetType(types.RouterTypePeer)
+		s.PeerRtr.LnS()
+		for {
+			resp, err := cl.Get("http://" + s.PeerAddr + "/version")
+			if err == nil {
+				b, _ := io.ReadAll(resp.Body)
+				resp.Body.Close()
+				if bytes.Contains(b, []byte(s.Nonce+"-peer")) {
+					break
+				}
+				s.stop()
+				return nil, fmt.Errorf("port %s answered by someone else: %.80s", s.PeerAddr, b)
+			}
+			if time.Now().After(deadline) {
+				s.stop()
+				return nil, fmt.Errorf("peer router did not come up on %s: %v", s.PeerAddr, err)
+			}
+			time.Sleep(2 * time.Millisecond)
+		}
+	}
 	// and the gRPC listener
 	for {
 		c, err := net.DialTimeout("tcp", s.GRPCAddr, time.Second)
@@ -567,6 +620,9 @@ func (s *authSUT) stop() {
 	go func() {
 		defer close(done)
 		_ = s.Router.Stop()
+		if s.PeerRtr != nil {
+			_ = s.PeerRtr.Stop()
+		}
 		_ = s.Upstream.Stop() // flushes every pending batch synchronously
 	}()
 	select {
